@@ -297,7 +297,7 @@ def run(ctx):
             mode = None
             sig = []
             for i_, ev_ in enumerate(pt.events):
-                if ev_[0] == "branch" and ev_[1] == ("nz", "h->nocase"):
+                if ev_[0] == "branch" and symx.plain(ev_[1]) == ("nz", "h->nocase"):
                     mode = ev_[2]
                     continue
                 if ev_[0] == "call" and ev_[1] in ncmp:
